@@ -143,9 +143,30 @@ def runResourceFb (c : Nat) (r : Res) (alive : Bool) (evs : List String) (acc : 
       let r'' := if delivered && r'.dep != c then rstep r' (.write c) else r'
       runResourceFb c r'' alive es (acc ++ [showRes r'' alive])
 
+def showResR (s : ResR) : String :=
+  showRes s.res s.alive ++ " B=[" ++ ",".intercalate (s.readers.map fun r => if r.guard then "1" else "0") ++ "]"
+
+def rrEv (e : String) : Option RREv :=
+  if e == "u" then some .read else if e == "y" then some .dropOldest else if e == "x" then some .disposeOwner
+  else if e.startsWith "w" then (e.drop 1).toString.toNat?.map fun v => .ev (.write v)
+  else if e.startsWith "f" then (e.drop 1).toString.toNat?.map fun k => .ev (.finish k) else none
+
+/-- `resourcerd`: as `resource`, and the loading state of every reader boundary is observed -/
+def runResourceRd (s : ResR) (evs : List String) (acc : List String) : List String :=
+  match evs with
+  | [] => acc
+  | e :: es =>
+    match rrEv e with
+    | none => acc ++ ["bad-op"]
+    | some ev => let s' := rrStep s ev; runResourceRd s' es (acc ++ [showResR s'])
+
 /-- `suspense <items> <ev,ev,…>` | `resource <dep0> <ev,ev,…>` | `resourcefb <dep0> <c> <ev,ev,…>` -/
 def handle (line : String) : String :=
   match line.splitOn " " with
+  | "resourcerd" :: d :: evs :: [] =>
+    match d.toNat? with
+    | some d => " | ".intercalate (runResourceRd (ResR.init d) (if evs == "-" then [] else evs.splitOn ",") [showResR (ResR.init d)])
+    | none => "bad-op"
   | "resource" :: d :: evs :: [] =>
     match d.toNat? with
     | some d => " | ".intercalate (runResource (Res.init d) true (if evs == "-" then [] else evs.splitOn ",") [showRes (Res.init d) true])
